@@ -1,7 +1,169 @@
 import IbModel.Util.Wire
-/-! Driver handlers for C18 (request kinds served for that property). -/
-namespace IB.D18
+import IbModel.Model.Cloud
+/-!
+Driver handlers for C18. Requests (all `key=value` tokens after the wrapper name):
 
-def handlers : List (String × (List String → String)) := []
+* `RETRY <raw|run|cio|tr|ciotr|bld|exe> max=<n|-> init=<ms> cap=<ms> mult=<f64 bits> lim=<ms|-> d=<ms> s=<script>`
+  script = `-` or comma-separated `ok` / error-kind names; the i-th outcome carries tag i.
+  ↦ `n=<attempts> out=<OK:tag|ERR:Kind:tag|EXH> sl=<delays|->`
+* `BATCH <raw|run> n=<items> size=<s> f=<script>` script tokens `ok|dup|nil|<Kind>` per call (then `ok`)
+  ↦ `calls=<c|c|…> res=<OK:…|ERR:Kind:tag>`
+* `PAGE <raw|run|cio> psize=<k> max=<m|-> p=<script>` page tokens `<len>T|<len>F|<Kind>`
+  ↦ `calls=<page:size,…> out=<OK:…|ERR:Kind:tag|EXH>`
+* `TIMEOUT lim=<ms> el=<ms> r=<ok|Kind>` ↦ `OK:0 | ERR:Kind:tag`
+* `IOBATCH max= init= cap= mult= n=<items> s=<script>` ↦ `calls=<item,…> sl=<…> out=<OK:…|ERR:…|EXH>`
+-/
+namespace IB.D18
+open IB.Wire IB.Cloud
+
+def kindOfName? (s : String) : Option Kind := Kind.all.find? (fun k => k.name == s)
+
+def csv (s : String) : List String := if s == "-" then [] else s.splitOn ","
+
+def joinOr (sep : String) (xs : List String) : String := if xs.isEmpty then "-" else sep.intercalate xs
+
+def nats (xs : List Nat) : String := joinOr "," (xs.map toString)
+
+def optNat? (s : String) : Option (Option Nat) :=
+  if s == "-" then some none else (parseNat? s).map some
+
+/-- outcome script: the i-th token becomes `ok i` / `error ⟨kind, i⟩` -/
+def script? (s : String) : Option (List (Res Nat)) :=
+  let rec go (i : Nat) : List String → Option (List (Res Nat))
+    | [] => some []
+    | t :: ts => do
+      let o ← if t == "ok" then some (Except.ok i) else (kindOfName? t).map (fun k => Except.error ⟨k, i⟩)
+      let r ← go (i + 1) ts
+      pure (o :: r)
+  go 0 (csv s)
+
+def tagStr (t : Nat) : String := if t == timeoutTag then "T" else toString t
+
+def resStr (showOk : Nat → String) : Res Nat → String
+  | .ok v => "OK:" ++ showOk v
+  | .error e => "ERR:" ++ e.kind.name ++ ":" ++ tagStr e.tag
+
+def outStr : Option (Res Nat) → String
+  | none => "EXH"
+  | some r => resStr toString r
+
+def listResStr : Option (Res (List Nat)) → String
+  | none => "EXH"
+  | some (.ok vs) => "OK:" ++ nats vs
+  | some (.error e) => "ERR:" ++ e.kind.name ++ ":" ++ tagStr e.tag
+
+def retryCfg? (args : List String) : Option (Option RetryConfig) := do
+  let mx ← optNat? (← kv? "max" args)
+  let init ← parseNat? (← kv? "init" args)
+  let cap ← parseNat? (← kv? "cap" args)
+  let bits ← parseNat? (← kv? "mult" args)
+  if bits ≥ 2 ^ 64 then none
+  match mx with
+  | none => pure none
+  | some m => pure (some ⟨m, init, cap, Float.ofBits (UInt64.ofNat bits)⟩)
+
+def retryAnswer (r : RetryResult Nat) : String :=
+  s!"n={r.attempts} out={outStr r.outcome} sl={nats r.sleeps}"
+
+def handleRetry : List String → String
+  | w :: args =>
+    match retryCfg? args, (kv? "lim" args).bind optNat?, (kv? "d" args).bind parseNat?,
+        (kv? "s" args).bind script? with
+    | some rc, some lim, some d, some script =>
+      let durs := List.replicate script.length d
+      match w, rc, lim with
+      | "raw", some c, none => retryAnswer (retry c script)
+      | "run", some c, none => retryAnswer (retry c script)
+      | "cio", some c, none => retryAnswer (retry c script)
+      | "tr", some c, some t => retryAnswer (runWithTimeoutAndRetry c t script durs)
+      | "ciotr", some c, some t => retryAnswer (runWithTimeoutAndRetry c t script durs)
+      | "bld", rc, lim => retryAnswer (execute rc lim script durs)
+      | "exe", rc, lim => retryAnswer (execute rc lim script durs)
+      | _, _, _ => "BAD-OP"
+    | _, _, _, _ => "BAD-OP"
+  | _ => "BAD-OP"
+
+/-- the scripted chunk processor of the harness: `ok` maps x ↦ x+100, `dup` answers each twice,
+    `nil` answers nothing, a kind name fails with tag = call index; beyond the script: `ok` -/
+def procOf (script : List String) (i : Nat) (c : List Nat) : Res (List Nat) :=
+  match script[i]? with
+  | none => .ok (c.map (· + 100))
+  | some "ok" => .ok (c.map (· + 100))
+  | some "dup" => .ok (c.flatMap (fun x => [x + 100, x + 100]))
+  | some "nil" => .ok []
+  | some t =>
+    match kindOfName? t with
+    | some k => .error ⟨k, i⟩
+    | none => .error ⟨.other, 888888⟩
+
+def procScriptOk (script : List String) : Bool :=
+  script.all (fun t => t == "ok" || t == "dup" || t == "nil" || (kindOfName? t).isSome)
+
+def handleBatch : List String → String
+  | w :: args =>
+    match (kv? "n" args).bind parseNat?, (kv? "size" args).bind parseNat?, (kv? "f" args).map csv with
+    | some n, some size, some fs =>
+      if !(w == "raw" || w == "run") || !procScriptOk fs then "BAD-OP"
+      else
+        let r := batchInChunks (List.range n) size (procOf fs)
+        let calls := joinOr "|" (r.1.map nats)
+        s!"calls={calls} res={listResStr (some r.2)}"
+    | _, _, _ => "BAD-OP"
+  | _ => "BAD-OP"
+
+/-- page token `<len>T` / `<len>F` / kind name; items of page j are j*100, j*100+1, … -/
+def pageTok? (j : Nat) (t : String) : Option (Res (List Nat × Bool)) :=
+  match kindOfName? t with
+  | some k => some (.error ⟨k, j⟩)
+  | none =>
+    let body := (t.dropEnd 1).toString
+    let flag := (t.drop (t.length - 1)).toString
+    match parseNat? body with
+    | some len =>
+      if flag == "T" then some (.ok ((List.range len).map (· + j * 100), true))
+      else if flag == "F" then some (.ok ((List.range len).map (· + j * 100), false))
+      else none
+    | none => none
+
+def pages? (s : String) : Option (List (Res (List Nat × Bool))) :=
+  let rec go (j : Nat) : List String → Option (List (Res (List Nat × Bool)))
+    | [] => some []
+    | t :: ts => do
+      let o ← pageTok? j t
+      let r ← go (j + 1) ts
+      pure (o :: r)
+  go 0 (csv s)
+
+def handlePage : List String → String
+  | w :: args =>
+    match (kv? "psize" args).bind parseNat?, (kv? "max" args).bind optNat?, (kv? "p" args).bind pages? with
+    | some ps, some mx, some script =>
+      if !(w == "raw" || w == "run" || w == "cio") then "BAD-OP"
+      else
+        let r := paginate ⟨ps, mx⟩ script
+        let calls := joinOr "," (r.calls.map (fun p => s!"{p.1}:{p.2}"))
+        s!"calls={calls} out={listResStr r.outcome}"
+    | _, _, _ => "BAD-OP"
+  | _ => "BAD-OP"
+
+def handleTimeout (args : List String) : String :=
+  match (kv? "lim" args).bind parseNat?, (kv? "el" args).bind parseNat?, kv? "r" args with
+  | some lim, some el, some r =>
+    if r == "ok" then resStr toString (withTimeout lim el (.ok 0))
+    else match kindOfName? r with
+      | some k => resStr toString (withTimeout lim el (.error ⟨k, 0⟩))
+      | none => "BAD-OP"
+  | _, _, _ => "BAD-OP"
+
+def handleIoBatch (args : List String) : String :=
+  match retryCfg? args, (kv? "n" args).bind parseNat?, (kv? "s" args).bind script? with
+  | some (some c), some n, some script =>
+    let r := ioBatch c (List.range n) script
+    s!"calls={nats r.calls} sl={nats r.sleeps} out={listResStr r.outcome}"
+  | _, _, _ => "BAD-OP"
+
+def handlers : List (String × (List String → String)) :=
+  [("RETRY", handleRetry), ("BATCH", handleBatch), ("PAGE", handlePage), ("TIMEOUT", handleTimeout),
+   ("IOBATCH", handleIoBatch)]
 
 end IB.D18
